@@ -8,6 +8,7 @@ from fractions import Fraction
 import numpy as np
 
 from common import Ctx, enc, q, unq, run_model, ModelError, import_amisc
+import systems
 from p_misc import margin
 
 
@@ -299,6 +300,32 @@ def run_costs(ctx: Ctx):
             ctx.disagree('C09:allocation', case, [float(mc), mn], [got_c, got_n])
 
 
+def run_latent_domains(ctx: Ctx):
+    """a compressed field-quantity input (optionally with a norm on the field): the collocation points of its latent coefficients lie
+    inside the latent domains, and every stored output is the model's output at the stored point"""
+    import random as _random
+    rng = ctx.rng
+    for n in range(ctx.pick(3, 12)):
+        fnorm = rng.choice([None, 'linear(0.01, 0)', 'linear(2, 1)'])
+        system, _ = systems.field_input_system(_random.Random(ctx.seed * 53 + n), name=f'lat{n}', field_norm=fnorm)
+        comp = system.components[0]
+        case = {'latent_case': n, 'field_norm': fnorm}
+        ctx.case(case, nontrivial=True, kind='latent-domains')
+        try:
+            for b in [(0, 0), (1, 0), (0, 1), (1, 1)]:
+                comp.activate_index((), b)
+        except Exception as e:
+            ctx.violate('C09:training-raises', f'{type(e).__name__}: {e}', case); continue
+        pvar = comp.inputs['p']
+        ldoms = pvar.get_domain()
+        td = comp.training_data
+        for i, (lo, hi) in enumerate(ldoms):
+            g = [float(t) for t in td.x_grids.get(f'p_LATENT{i}', [])]
+            bad = [t for t in g if not (lo - 1e-9 * (hi - lo) <= t <= hi + 1e-9 * (hi - lo))]
+            if not g or bad:
+                ctx.violate('C09:outside-domain', f'collocation points of latent coefficient {i}: {g}; latent domain {(lo, hi)}', case); break
+
+
 def run(ctx: Ctx):
     import_amisc()
     ctx.rule = ('components with instrumented serial models (every call logged with fidelity, point and reported cost), 1-3 inputs, 0-2 model-fidelity '
@@ -310,3 +337,4 @@ def run(ctx: Ctx):
     run_histories(ctx)
     run_knots(ctx)
     run_costs(ctx)
+    run_latent_domains(ctx)
